@@ -61,7 +61,7 @@ Lemma isNewlyCompleted_fields s :
   fc_window s' = fc_window s /\ finalOffset s' = finalOffset s /\ errorRead s' = errorRead s /\
   cancelledLocally s' = cancelledLocally s /\ cancelledRemotely s' = cancelledRemotely s /\
   reliableSize s' = reliableSize s /\ shutdown s' = shutdown s.
-Proof.
+Proof using.
   unfold isNewlyCompleted. cbv zeta.
   destruct (completed s); [repeat split|].
   destruct (finalOffset s =? MaxBC); [repeat split|].
@@ -92,7 +92,7 @@ Lemma fcUpdate_ok s offset final s1 : fcUpdate s offset final = (s1, FNil) ->
   (fc_highest s < offset -> offset <= fc_window s) /\
   (final = true -> fc_highest s1 = offset) /\
   (fc_final s = true -> fc_highest s1 = fc_highest s).
-Proof.
+Proof using.
   unfold fcUpdate. intros H.
   destruct (fc_final s) eqn:Ff; destruct final; cbn [andb orb negb] in H;
     repeat match type of H with
@@ -104,27 +104,27 @@ Qed.
 (** rejections: the error class, and that nothing the reader can observe changes *)
 Lemma fcUpdate_beyond_final s offset final : fc_final s = true -> fc_highest s < offset ->
   fcUpdate s offset final = (s, FFinalSize).
-Proof.
+Proof using.
   intros Hf Hlt. unfold fcUpdate. rewrite Hf. destruct final; cbn [andb].
   - destruct (Z.eqb_spec offset (fc_highest s)); [lia|reflexivity].
   - destruct (Z.ltb_spec (fc_highest s) offset); [reflexivity|lia].
 Qed.
 Lemma fcUpdate_other_final s offset : fc_final s = true -> offset <> fc_highest s ->
   fcUpdate s offset true = (s, FFinalSize).
-Proof.
+Proof using.
   intros Hf Hne. unfold fcUpdate. rewrite Hf. cbn [andb].
   destruct (Z.eqb_spec offset (fc_highest s)); [lia|reflexivity].
 Qed.
 Lemma fcUpdate_final_below s offset : fc_final s = false -> offset < fc_highest s ->
   snd (fcUpdate s offset true) = FFinalSize.
-Proof.
+Proof using.
   intros Hf Hlt. unfold fcUpdate. rewrite Hf. cbn [andb orb].
   destruct (Z.eqb_spec offset (fc_highest s)); [lia|].
   destruct (Z.ltb_spec offset (fc_highest s)); [reflexivity|lia].
 Qed.
 Lemma fcUpdate_window s offset final : fc_final s = false -> fc_highest s < offset -> fc_window s < offset ->
   snd (fcUpdate s offset final) = FFlowControl.
-Proof.
+Proof using.
   intros Hf Hlt Hw. unfold fcUpdate. rewrite Hf. cbn [andb orb].
   destruct (Z.eqb_spec offset (fc_highest s)); [lia|].
   destruct (Z.ltb_spec offset (fc_highest s)); [lia|].
@@ -136,7 +136,7 @@ Lemma handleStreamFrame_rejected s data off fin cb s' e :
   snd (fcUpdate s (off + len data) fin) <> FNil ->
   e = snd (fcUpdate s (off + len data) fin) /\ sorter s' = sorter s /\ rpos s' = rpos s /\
   cur s' = cur s /\ rpif s' = rpif s /\ finalOffset s' = finalOffset s.
-Proof.
+Proof using.
   unfold handleStreamFrame. intros H Hne.
   destruct (fcUpdate s (off + len data) fin) as [s1 e1] eqn:Ef. simpl in Hne.
   assert (Hs1 : sorter s1 = sorter s /\ rpos s1 = rpos s /\ cur s1 = cur s /\ rpif s1 = rpif s /\ finalOffset s1 = finalOffset s).
@@ -145,7 +145,8 @@ Proof.
     | context [if ?c then _ else _] => destruct c
     end; inversion Ef; subst; simpl; auto. }
   destruct e1; try congruence; inversion H; subst;
-    destruct (isNewlyCompleted_fields s1) as (A&B&C&D&_&_&_&_&I&_); simpl; intuition congruence.
+    destruct (isNewlyCompleted_fields s1) as (A&B&C&D&_&_&_&_&I&_); simpl;
+    destruct Hs1 as (H1&H2&H3&H4&H5); (split; [reflexivity|]); repeat split; congruence.
 Qed.
 
 Lemma Inv_fire_done q cb : Inv S q -> Inv S (fire_done q cb).
@@ -484,6 +485,255 @@ Proof.
     apply (readBody_spec (readLoop fuel) fuel IH); auto; try lia.
     + congruence.
     + intros _. rewrite (crest_nonnil _ E1). lia.
+Qed.
+
+Lemma Read_spec s n s' d e bug : RSInv s -> 0 <= n -> Read s n = (s', d, e, bug) ->
+  bug = false /\ RSInv s' /\ d = slice S (rpos s) (len d) /\ rpos s' = rpos s + len d /\ len d <= n /\
+  (e = EEOF -> fc_final s' = true /\ rpos s' = finalOffset s').
+Proof.
+  intros R Hn H. unfold Read in H.
+  destruct (readImpl s n) as [[[s1 d1] e1] b1] eqn:ER. inversion H; subst; clear H.
+  assert (Hcore : bug = false /\ RSInv s1 /\ d = slice S (rpos s) (len d) /\ rpos s1 = rpos s + len d /\ len d <= n /\
+                  (e = EEOF -> fc_final s1 = true /\ rpos s1 = finalOffset s1)).
+  { unfold readImpl in ER.
+    destruct (curIsLast s && (match cur s with [] => true | _ => false end)) eqn:E1.
+    { apply andb_prop in E1 as [El Ec]. apply isnil_true in Ec.
+      assert (Hc0 : crest s = 0) by (unfold crest; rewrite Ec; reflexivity).
+      destruct (RSInv_last _ R El) as (Hf&Hrp). pose proof (v_pos _ R) as Hp.
+      inversion ER; subst. split; auto. split; [apply RSInv_set_errorRead; auto|].
+      split; [reflexivity|]. rewrite len_nil. split; [simpl; lia|]. split; [lia|].
+      intros _. simpl. split; auto. lia. }
+    destruct (cancelledLocally s || remoteEffective s).
+    { inversion ER; subst. split; auto. split; [apply RSInv_set_errorRead; auto|].
+      split; [reflexivity|]. rewrite len_nil. split; [simpl; lia|]. split; [lia|].
+      intros He. exfalso. eapply cancel_rerr_not_eof; eauto. }
+    destruct (shutdown s).
+    { inversion ER; subst. split; auto. split; auto. split; [reflexivity|]. rewrite len_nil.
+      split; [lia|]. split; [lia|]. discriminate. }
+    pose proof (readLoop_spec (Datatypes.S (Datatypes.S (length (queue (sorter s))))) s n [] (rpos s) R (v_rpos _ R)) as HL.
+    rewrite len_nil in HL. specialize (HL eq_refl ltac:(lia)).
+    assert (Hmu : (mu s < Datatypes.S (Datatypes.S (length (queue (sorter s)))))%nat).
+    { unfold mu. destruct (0 <? crest s); lia. }
+    specialize (HL (or_introl Hmu)). rewrite ER in HL. unfold ReadPost in HL.
+    destruct HL as (P1&P2&P3&P4&P5&P6&P7). change (len (@nil Z)) with 0 in *.
+    split; auto. split; auto. split; auto. split; auto. split; [lia|auto]. }
+  destruct Hcore as (C1&C2&C3&C4&C5&C6).
+  destruct (isNewlyCompleted_fields s1) as (A&B&_&_&_&_&G&_&I&_).
+  split; auto. split; [apply RSInv_completed; auto|]. split; auto. split; [rewrite B; auto|]. split; auto.
+  rewrite G, B, I. exact C6.
+Qed.
+
+Lemma Peek_state s n s' d e bug : RSInv s -> PeekS s n = (s', d, e, bug) ->
+  bug = false /\ RSInv s' /\ rpos s' = rpos s /\ fc_final s' = fc_final s /\ finalOffset s' = finalOffset s.
+Proof.
+  intros R H. unfold PeekS in H. destruct (n <=? 0); [inversion H; subst; auto|].
+  unfold peekImpl in H.
+  destruct (curIsLast s && _); [inversion H; subst; auto|].
+  destruct (cancelledLocally s || remoteEffective s); [inversion H; subst; auto|].
+  destruct (shutdown s); [inversion H; subst; auto|].
+  match type of H with context [if ?c then dequeue s else (s, false)] => destruct c eqn:Edq end.
+  - assert (Hc0 : crest s = 0).
+    { apply crest_zero; auto. apply orb_prop in Edq. destruct Edq as [E|E]; [left; apply isnil_true; auto|right; apply Z.leb_le; auto]. }
+    destruct (dequeue s) as [s1 b1] eqn:Ed.
+    destruct (dequeue_spec _ _ _ R Hc0 Ed) as (->&R1&D1&D2&D3&D4&D5&D6&D7&D8&D9&D10&_).
+    assert (Hst : s' = s1 /\ bug = false).
+    { revert H. repeat match goal with
+      | |- context [if ?c then _ else _] => destruct c
+      | |- context [match ?c with Some _ => _ | None => _ end] => destruct c
+      end; intros H; inversion H; auto. }
+    destruct Hst as (->&->). auto.
+  - assert (Hst : s' = s /\ bug = false).
+    { revert H. repeat match goal with
+      | |- context [if ?c then _ else _] => destruct c
+      | |- context [match ?c with Some _ => _ | None => _ end] => destruct c
+      end; intros H; inversion H; auto. }
+    destruct Hst as (->&->). auto.
+Qed.
+
+(* Read does not touch the flow controller state or the final offset *)
+Lemma readLoop_keeps_fc : forall fuel s n acc s' d e bug, readLoop fuel s n acc = (s', d, e, bug) ->
+  fc_final s' = fc_final s /\ fc_highest s' = fc_highest s /\ finalOffset s' = finalOffset s.
+Proof.
+  induction fuel as [|fuel IH]; intros s n acc s' d e bug H; simpl in H; [inversion H; auto|].
+  destruct (n <=? len acc).
+  { destruct (remoteEffective s); inversion H; subst; auto. }
+  assert (Hdq : forall s1 b, (if (match cur s with [] => true | _ => false end) || (len (cur s) <=? rpif s) then dequeue s else (s, false)) = (s1, b) ->
+     fc_final s1 = fc_final s /\ fc_highest s1 = fc_highest s /\ finalOffset s1 = finalOffset s).
+  { intros s1 b Hd. destruct (_ || _); [|inversion Hd; auto].
+    unfold dequeue in Hd. destruct (Pop _) as [[q1 [[off dd] cb]] bb]. inversion Hd; subst. auto. }
+  destruct (if (match cur s with [] => true | _ => false end) || (len (cur s) <=? rpif s) then dequeue s else (s, false)) as [s1 b1] eqn:Ed.
+  destruct (Hdq _ _ eq_refl) as (D1&D2&D3).
+  revert H. repeat match goal with
+  | |- context [if ?c then _ else _] => destruct c
+  end; intros H; try (inversion H; subst; simpl; auto; fail).
+  apply IH in H. simpl in H. destruct H as (H1&H2&H3). rewrite H1, H2, H3. auto.
+Qed.
+
+Lemma Read_keeps_fc s n s' d e bug : Read s n = (s', d, e, bug) ->
+  fc_final s' = fc_final s /\ fc_highest s' = fc_highest s /\ finalOffset s' = finalOffset s.
+Proof.
+  unfold Read. destruct (readImpl s n) as [[[s1 d1] e1] b1] eqn:ER. intros H. inversion H; subst.
+  destruct (isNewlyCompleted_fields s1) as (_&_&_&_&_&F&G&_&I&_). rewrite F, G, I.
+  unfold readImpl in ER.
+  destruct (curIsLast s && _); [inversion ER; subst; auto|].
+  destruct (cancelledLocally s || remoteEffective s); [inversion ER; subst; auto|].
+  destruct (shutdown s); [inversion ER; subst; auto|].
+  eapply readLoop_keeps_fc; eauto.
+Qed.
+
+(** * histories *)
+Record RRInv (r : rrun) : Prop := {
+  rr_inv : RSInv (rr_st r);
+  rr_outv : rr_out r = slice S 0 (rpos (rr_st r));
+  rr_eofv : rr_eof r = true -> fc_final (rr_st r) = true /\ rpos (rr_st r) = finalOffset (rr_st r)
+}.
+
+Lemma RRInv_init w : 0 <= w < MaxBC -> RRInv (rrun_init w).
+Proof. intros Hw. constructor; simpl; [apply RSInv_init; auto|reflexivity|discriminate]. Qed.
+
+(* once the final size is known it never changes, and neither does a read position that reached it *)
+Lemma rstep_RRInv r o r' : RRInv r -> rvalid o -> rstep S r o = Some r' -> RRInv r'.
+Proof.
+  intros [R Ho He] Hv Hs. destruct o as [off n fin cb|final reliable code|n|n|code|]; simpl in Hs.
+  - destruct Hv as (V1&V2).
+    destruct (handleStreamFrame (rr_st r) (slice S off n) off fin cb) as [s' e] eqn:EH.
+    destruct e; try discriminate. inversion Hs; subst; clear Hs.
+    destruct (handleStreamFrame_RSInv _ _ _ _ _ _ R V1 V2 EH) as (R'&Hrp).
+    constructor; simpl; auto; [rewrite Hrp; auto|].
+    intros Heof. destruct (He Heof) as (Hf&Hfin).
+    (* the final size was known: it stays the same *)
+    unfold handleStreamFrame in EH. rewrite len_slice in EH by lia.
+    destruct (fcUpdate (rr_st r) (off + n) fin) as [s1 e1] eqn:Ef.
+    destruct e1; try (inversion EH; discriminate).
+    destruct (fcUpdate_ok _ _ _ _ Ef) as (A1&A2&A3&A4&A5&A6&A7&A8&A9&A10&A11&A12&A13&A14&A15&A16).
+    pose proof (v_final _ R') as VF'. pose proof (v_final _ R) as VF. rewrite Hf in VF.
+    assert (Hff : fc_final s' = true /\ fc_highest s' = fc_highest (rr_st r)).
+    { revert EH. destruct fin; destruct (cancelledLocally _);
+        try destruct (Push _ _ _ _) as [q rr]; intros EH; inversion EH; subst;
+        match goal with |- context [isNewlyCompleted ?X] => destruct (isNewlyCompleted_fields X) as (_&_&_&_&_&F&G&_) end;
+        rewrite F, G; simpl; rewrite ?A13, ?Hf; simpl; split; auto. }
+    destruct Hff as (F1&F2). rewrite F1 in VF'. split; auto. lia.
+  - destruct Hv as (V1&V2).
+    destruct (handleResetStreamFrame (rr_st r) final reliable code) as [s' e] eqn:EH.
+    destruct e; try discriminate. inversion Hs; subst; clear Hs.
+    destruct (handleReset_RSInv _ _ _ _ _ R V1 EH) as (R'&Hrp&Hso).
+    constructor; simpl; auto; [rewrite Hrp; auto|].
+    intros Heof. destruct (He Heof) as (Hf&Hfin).
+    unfold handleResetStreamFrame in EH.
+    pose proof (v_final _ R') as VF'. pose proof (v_final _ R) as VF. rewrite Hf in VF.
+    assert (Hff : fc_final s' = true /\ fc_highest s' = fc_highest (rr_st r)).
+    { destruct (shutdown (rr_st r)).
+      - inversion EH; subst. destruct (isNewlyCompleted_fields (rr_st r)) as (_&_&_&_&_&F&G&_). rewrite F, G. auto.
+      - destruct (fcUpdate (rr_st r) final true) as [s1 e1] eqn:Ef.
+        destruct e1; try (inversion EH; discriminate).
+        destruct (fcUpdate_ok _ _ _ _ Ef) as (A1&A2&A3&A4&A5&A6&A7&A8&A9&A10&A11&A12&A13&A14&A15&A16).
+        revert EH. repeat match goal with |- context [if ?c then _ else _] => destruct c end;
+          intros EH; inversion EH; subst;
+          match goal with |- context [isNewlyCompleted ?X] => destruct (isNewlyCompleted_fields X) as (_&_&_&_&_&F&G&_) end;
+          rewrite F, G; simpl; rewrite ?A13, ?Hf; simpl; split; auto. }
+    destruct Hff as (F1&F2). rewrite F1 in VF'. split; auto. lia.
+  - destruct (Read (rr_st r) n) as [[[s' d] e] bug] eqn:ER.
+    destruct (Read_spec _ _ _ _ _ _ R Hv ER) as (->&R'&Hd&Hrp&Hlen&Heof).
+    inversion Hs; subst; clear Hs. constructor; simpl; auto.
+    + rewrite Ho, Hrp. pose proof (v_rpos _ R). rewrite slice_app by auto using len_nonneg.
+      rewrite Z.add_0_l. rewrite <- Hd. reflexivity.
+    + intros Hor. apply orb_prop in Hor. destruct Hor as [Hor|Hor].
+      * (* EOF was read before: the read position is at the final size; nothing more can be read *)
+        destruct (He Hor) as (Hf&Hfin).
+        pose proof (v_final _ R) as VF. rewrite Hf in VF.
+        pose proof (v_pos _ R') as P'. pose proof (v_rp_high _ R') as Q'.
+        assert (Hge : 0 <= crest s').
+        { unfold crest. destruct (nonnil_dec (cur s')) as [E|E]; [rewrite E; lia|].
+          destruct (v_cur _ R' E) as ((?&?)&_). destruct (cur s'); [congruence|]. lia. }
+        (* Read changes neither the flow controller state nor the final offset *)
+        assert (Hsame : fc_final s' = fc_final (rr_st r) /\ fc_highest s' = fc_highest (rr_st r) /\ finalOffset s' = finalOffset (rr_st r))
+          by (eapply Read_keeps_fc; eauto).
+        destruct Hsame as (S1&S2&S3). rewrite S1, S3. split; auto.
+        pose proof (len_nonneg d). lia.
+      * destruct e; try discriminate. apply Heof. reflexivity.
+  - destruct (PeekS (rr_st r) n) as [[[s' d] e] bug] eqn:EP.
+    destruct (Peek_state _ _ _ _ _ _ R EP) as (->&R'&Hrp&Hf&Hfin).
+    inversion Hs; subst; clear Hs. constructor; simpl; auto; [rewrite Hrp; auto|].
+    rewrite Hrp, Hf, Hfin. auto.
+  - inversion Hs; subst; clear Hs. destruct (CancelRead_RSInv _ code R) as (R'&Hrp&Hso&_).
+    constructor; simpl; auto; [rewrite Hrp; auto|].
+    intros Heof. rewrite Hrp. unfold CancelRead.
+    match goal with |- context [isNewlyCompleted ?X] => destruct (isNewlyCompleted_fields X) as (_&_&_&_&_&_&G&_&I&_); rewrite G, I end.
+    destruct (cancelledLocally (rr_st r)); [auto|]. destruct (shutdown (rr_st r)); [auto|].
+    destruct (errorRead (rr_st r) || cancelledRemotely (rr_st r)); simpl; auto.
+  - inversion Hs; subst; clear Hs. constructor; simpl; auto. apply Shutdown_RSInv; auto.
+Qed.
+
+Lemma rsrun_RRInv ops : forall r r', RRInv r -> Forall rvalid ops -> rsrun S r ops = Some r' -> RRInv r'.
+Proof.
+  induction ops as [|o ops IH]; intros r r' R Hv Hs; simpl in Hs.
+  - inversion Hs; subst. auto.
+  - inversion Hv; subst. destruct (rstep S r o) as [r1|] eqn:E1; [|discriminate].
+    apply (IH r1 r'); auto. eapply rstep_RRInv; eauto.
+Qed.
+
+(** * Statements used by Props/C03.v *)
+
+(** every history: the bytes returned by Read, concatenated, are S[0, readPos); they never go
+    beyond what was received nor beyond a known final size; once EOF was returned the read
+    position is the final size *)
+Theorem recv_read_exact w ops r : 0 <= w < MaxBC -> Forall rvalid ops -> rsrun S (rrun_init w) ops = Some r ->
+  rr_out r = slice S 0 (rpos (rr_st r)) /\
+  rpos (rr_st r) <= fc_highest (rr_st r) /\
+  (fc_final (rr_st r) = true -> finalOffset (rr_st r) = fc_highest (rr_st r)) /\
+  (rr_eof r = true -> fc_final (rr_st r) = true /\ rpos (rr_st r) = finalOffset (rr_st r)).
+Proof.
+  intros Hw Hv Hs. destruct (rsrun_RRInv ops _ _ (RRInv_init w Hw) Hv Hs) as [R Ho He].
+  split; auto. split; [|split; auto].
+  - pose proof (v_pos _ R) as P. pose proof (v_rp_high _ R) as Q.
+    assert (Hge : 0 <= crest (rr_st r)).
+    { unfold crest. destruct (nonnil_dec (cur (rr_st r))) as [E|E]; [rewrite E; lia|].
+      destruct (v_cur _ R E) as ((?&?)&_). destruct (cur (rr_st r)); [congruence|]. lia. }
+    lia.
+  - intros Hf. pose proof (v_final _ R) as VF. rewrite Hf in VF. auto.
+Qed.
+
+(** one Read in any reachable state *)
+Theorem recv_read_step w ops r n s' d e bug : 0 <= w < MaxBC -> Forall rvalid ops ->
+  rsrun S (rrun_init w) ops = Some r -> 0 <= n -> Read (rr_st r) n = (s', d, e, bug) ->
+  bug = false /\ d = slice S (rpos (rr_st r)) (len d) /\ rpos s' = rpos (rr_st r) + len d /\ len d <= n /\
+  (e = EEOF -> fc_final s' = true /\ rpos s' = finalOffset s').
+Proof.
+  intros Hw Hv Hs Hn HR. destruct (rsrun_RRInv ops _ _ (RRInv_init w Hw) Hv Hs) as [R Ho He].
+  destruct (Read_spec _ _ _ _ _ _ R Hn HR) as (A&B&C&D&E&F). auto.
+Qed.
+
+(** rejections, for an arbitrary state: error class, and nothing the reader observes changes *)
+Theorem recv_reject_frame s data off fin cb s' e :
+  handleStreamFrame s data off fin cb = (s', e) ->
+  let endp := off + len data in
+  ((fc_final s = true /\ (fc_highest s < endp \/ (fin = true /\ endp <> fc_highest s))) \/
+   (fc_final s = false /\ fin = true /\ endp < fc_highest s) -> e = FFinalSize) /\
+  (fc_final s = false /\ fc_highest s < endp /\ fc_window s < endp -> e = FFlowControl) /\
+  (e = FFinalSize \/ e = FFlowControl ->
+     sorter s' = sorter s /\ rpos s' = rpos s /\ cur s' = cur s /\ rpif s' = rpif s /\ finalOffset s' = finalOffset s).
+Proof using.
+  intros H endp.
+  assert (Hrej : forall x, snd (fcUpdate s endp fin) = x -> x <> FNil -> e = x /\
+     sorter s' = sorter s /\ rpos s' = rpos s /\ cur s' = cur s /\ rpif s' = rpif s /\ finalOffset s' = finalOffset s).
+  { intros x Hx Hne. rewrite <- Hx in Hne. destruct (handleStreamFrame_rejected _ _ _ _ _ _ _ H Hne) as (A&B).
+    fold endp in A. rewrite Hx in A. auto. }
+  split; [|split].
+  - intros [(Hf&[Hlt|(->&Hne)])|(Hf&->&Hlt)].
+    + apply (Hrej FFinalSize); [rewrite fcUpdate_beyond_final; auto|discriminate].
+    + apply (Hrej FFinalSize); [rewrite fcUpdate_other_final; auto|discriminate].
+    + apply (Hrej FFinalSize); [apply fcUpdate_final_below; auto|discriminate].
+  - intros (Hf&Hlt&Hw). apply (Hrej FFlowControl); [apply fcUpdate_window; auto|discriminate].
+  - intros He. unfold handleStreamFrame in H. fold endp in H.
+    destruct (fcUpdate s endp fin) as [s1 e1] eqn:Ef.
+    destruct e1.
+    + (* the flow controller accepted: the only possible error is the sorter's *)
+      exfalso. revert H. destruct (cancelledLocally _); [intros H; inversion H; subst; destruct He; discriminate|].
+      destruct (Push _ _ _ _) as [q rr]. intros H. inversion H; subst. destruct rr; simpl in He; destruct He; discriminate.
+    + apply (Hrej FFinalSize); [reflexivity|discriminate].
+    + apply (Hrej FFlowControl); [reflexivity|discriminate].
+    + apply (Hrej FSorter); [reflexivity|discriminate].
+    + apply (Hrej FBug); [reflexivity|discriminate].
 Qed.
 
 End WithS.
